@@ -206,8 +206,8 @@ func (state *state) etag() string {
 // If etag is the empty string, it is added if it didn't exist.  If etag
 // is not empty, it is added if it matches the state's etag.
 func (state *state) Update(token *Stateful, etag string) (*Stateful, error) {
-	tokens.mu.Lock()
-	defer tokens.mu.Unlock()
+	state.mu.Lock()
+	defer state.mu.Unlock()
 
 	if state.filename == "" {
 		if etag != "" {
@@ -250,8 +250,8 @@ func Delete(token string, etag string) error {
 }
 
 func (state *state) Delete(token string, etag string) error {
-	tokens.mu.Lock()
-	defer tokens.mu.Unlock()
+	state.mu.Lock()
+	defer state.mu.Unlock()
 
 	if state.filename == "" {
 		return os.ErrNotExist
